@@ -106,7 +106,7 @@ def run_check(prop, tier=None, seed=None, replay=None):
         extra_viol = mod.aggregate(cases, results) or []
 
     findings = load_findings(prop)
-    counts = {"held": 0, "violated": 0, "inconclusive": 0, "crashed": 0, "skipped": 0}
+    counts = {"held": 0, "violated": 0, "known_finding": 0, "inconclusive": 0, "crashed": 0, "skipped": 0}
     reasons = {}
     inc_samples = []
     nontrivial = set()
@@ -123,6 +123,8 @@ def run_check(prop, tier=None, seed=None, replay=None):
     nviol = 0
     for case, r in zip(cases, results):
         st = status_of(r)
+        if st == "violated" and all(match_finding(v.get("sig", "?"), findings) is not None for v in r.get("violations", [])):
+            st = "known_finding"  # every violation of this case is a listed open finding: reported as KNOWN-FINDING, not as an alarm
         counts[st] += 1
         if r is None:
             continue
@@ -142,7 +144,7 @@ def run_check(prop, tier=None, seed=None, replay=None):
             probes[k] = probes.get(k, 0) + int(v)
         compared += int(r.get("compared", 0) or 0)
         m = float(r.get("margin", 0.0) or 0.0)
-        if np.isfinite(m) and m > margin and st != "violated":
+        if np.isfinite(m) and m > margin and st not in ("violated", "known_finding"):
             margin, margin_case = m, case.get("id")
         if r.get("sample") is not None and len(samples) < 6 and st == "held":
             samples.append({"case": case, "observed": r["sample"]})
@@ -173,7 +175,7 @@ def run_check(prop, tier=None, seed=None, replay=None):
 
     # coverage floor
     floor = mod.floor(tier) if hasattr(mod, "floor") else {}
-    conclusive = counts["held"] + counts["violated"]
+    conclusive = counts["held"] + counts["violated"] + counts["known_finding"]
     short = []
     if conclusive < floor.get("min_conclusive", 1):
         short.append(f"conclusive cases {conclusive} < {floor.get('min_conclusive', 1)}")
@@ -248,7 +250,7 @@ def run_check(prop, tier=None, seed=None, replay=None):
         print(f"... {len(lines)-25} further distinct violation signatures in evidence/{prop}.json")
     print(
         f"[{prop}] tier={tier} seed={seed} cases={cov['evaluations']}/{len(cases)} held={counts['held']} "
-        f"violated={counts['violated']} inconclusive={counts['inconclusive']+counts['crashed']} "
+        f"violated={counts['violated']} known_finding={counts['known_finding']} inconclusive={counts['inconclusive']+counts['crashed']} "
         f"nontrivial={len(nontrivial)} compared={compared} max_margin={margin:.3g} wall={wall:.0f}s"
     )
     if nviol:
